@@ -33,6 +33,7 @@ type rcEvent struct {
 	t     int
 	kind  string // gate | after | done
 	label string
+	kop   *kvOp // done: the operation with its raw results (for the Go-side linearizability search)
 }
 
 type rcCase struct {
@@ -268,7 +269,25 @@ func runRedisCmdCase(ctx *Ctx, progs [][]*rcOp, maxSteps int, sched []int) {
 				case "delete":
 					err = st.Delete(cx, o.key)
 				}
-				c.events <- rcEvent{t: t, kind: "done", label: c.result(o, ver, rec, recs, err)}
+				kop := &kvOp{thread: t, kind: o.kind, key: o.key, keys: o.keys, val: o.val, ver: s.ver, errc: kvcErr(err)}
+				switch o.kind {
+				case "create", "put", "cas":
+					kop.newVer = ver
+				case "get":
+					kop.rec = [2]string{sv(rec.Value), rec.Version}
+				case "getmany":
+					for _, r := range recs {
+						if r == nil {
+							kop.recs = append(kop.recs, [2]string{"nil", ""})
+						} else {
+							kop.recs = append(kop.recs, [2]string{sv(r.Value), r.Version})
+						}
+					}
+				}
+				if o.kind == "putmany" && len(o.vals) > 0 {
+					kop.val = o.vals[0]
+				}
+				c.events <- rcEvent{t: t, kind: "done", label: c.result(o, ver, rec, recs, err), kop: kop}
 			}
 		}(t)
 	}
@@ -278,6 +297,8 @@ func runRedisCmdCase(ctx *Ctx, progs [][]*rcOp, maxSteps int, sched []int) {
 		}
 	}()
 	// scheduler
+	invAt := make([]int64, n)    // stamp of the current operation's invocation
+	var history []*kvOp
 	pcIdx := make([]int, n)      // next op of each client
 	state := make([]string, n)   // idle | gate
 	lastSeen := map[string]string{} // key -> a version string some client has seen stored (for cas arguments)
@@ -309,6 +330,28 @@ func runRedisCmdCase(ctx *Ctx, progs [][]*rcOp, maxSteps int, sched []int) {
 		case "done":
 			state[t] = "idle"
 			ctx.R.Op(fmt.Sprintf("ret %d", t), e.label)
+			if e.kop != nil {
+				e.kop.inv, e.kop.ret = invAt[t], tick()
+				history = append(history, e.kop)
+				// versions for later CAS arguments come ONLY from what some client has observed
+				saw := func(k, ver string) {
+					if ver != "" && lastSeen[k] != ver {
+						prevSeen[k], lastSeen[k] = lastSeen[k], ver
+					}
+				}
+				switch {
+				case e.kop.kind == "get" && e.kop.errc == "":
+					saw(e.kop.key, e.kop.rec[1])
+				case e.kop.kind == "getmany" && e.kop.errc == "":
+					for i, k := range e.kop.keys {
+						if i < len(e.kop.recs) && e.kop.recs[i][0] != "nil" {
+							saw(k, e.kop.recs[i][1])
+						}
+					}
+				case e.kop.errc == "" || e.kop.errc == "ErrExist":
+					saw(e.kop.key, e.kop.newVer)
+				}
+			}
 		}
 	}
 	raced := false
@@ -376,6 +419,7 @@ func runRedisCmdCase(ctx *Ctx, progs [][]*rcOp, maxSteps int, sched []int) {
 				raced = true
 			}
 			ctx.R.Op(fmt.Sprintf("call %d %s", t, text), "ok")
+			invAt[t] = tick()
 			startCh[t] <- start{o: o, ver: arg}
 			next(t)
 		} else {
@@ -392,15 +436,6 @@ func runRedisCmdCase(ctx *Ctx, progs [][]*rcOp, maxSteps int, sched []int) {
 			}
 			ctx.R.Op(fmt.Sprintf("cmd %d", t), e.label)
 			next(t)
-		}
-		// versions currently stored (for later cas arguments): read the server directly
-		for _, k := range []string{"a", "b"} {
-			if raw, err := mr.Get("/kvs/" + k); err == nil {
-				_, ver := kredis.VerifDecode(raw)
-				if lastSeen[k] != ver {
-					prevSeen[k], lastSeen[k] = lastSeen[k], ver
-				}
-			}
 		}
 	}
 	// let everything finish
@@ -435,6 +470,17 @@ func runRedisCmdCase(ctx *Ctx, progs [][]*rcOp, maxSteps int, sched []int) {
 			}
 		}()
 	}
+	// the property's own condition on the REAL results, independent of the command-level model: the
+	// history (every operation completed) must have a sequential explanation compatible with real time
+	allDone := !c.failed
+	for t := 0; t < n; t++ {
+		if state[t] != "idle" {
+			allDone = false
+		}
+	}
+	if allDone && len(history) > 0 && len(history) <= 14 && linearize(history) == nil {
+		ctx.R.Quiet("mon C02-linearizable", "no sequential order compatible with real time explains this history: "+describeHistory(history))
+	}
 	if raced {
 		ctx.R.Nontrivial("an operation was invoked while another client was in the middle of its commands")
 	}
@@ -466,7 +512,8 @@ func runRedisCmd(ctx *Ctx) {
 				case x < 55:
 					progs[t] = append(progs[t], &rcOp{kind: "put", key: k, val: nv()})
 				case x < 60:
-					progs[t] = append(progs[t], &rcOp{kind: "putmany", keys: []string{"a", "b"}, vals: []string{nv(), nv()}})
+					v := nv()
+					progs[t] = append(progs[t], &rcOp{kind: "putmany", keys: []string{"a", "b"}, vals: []string{v, v}})
 				case x < 85:
 					progs[t] = append(progs[t], &rcOp{kind: "cas", key: k, val: nv(), ver: []string{"cur", "cur", "cur", "stale"}[r.Intn(4)]})
 				default:
@@ -481,7 +528,10 @@ func runRedisCmd(ctx *Ctx) {
 			cas := func() *rcOp { return &rcOp{kind: "cas", key: "a", val: nv(), ver: "cur"} }
 			del := &rcOp{kind: "delete", key: "a"}
 			crt := func() *rcOp { return &rcOp{kind: "create", key: "a", val: nv()} }
-			switch r.Intn(5) {
+			switch r.Intn(6) {
+			case 5: // Create A: SETNX finds the key; Delete; A's GET finds nothing; creator B wins; A must now LOSE (ErrExist with B's version)
+				progs = [][]*rcOp{{put(), del}, {crt()}, {crt()}}
+				sched = []int{0, 3, 1, 4, 0, 3, 4, 2, 5, 4, 4}
 			case 0: // Create: SETNX finds the key, the key is deleted, GET finds nothing, the second SETNX wins
 				progs = [][]*rcOp{{put(), del}, {crt()}}
 				sched = []int{0, 2, 1, 3, 0, 2, 3, 3}
